@@ -93,12 +93,16 @@ pub struct DataCfg {
     pub zeros: bool,
     /// INT cells (other than the key g) between 10^8 and 3*10^9 in magnitude: sums of their squares pass 2^53 but stay inside 64 bits
     pub mid_ints: bool,
+    /// REAL cells are mostly whole numbers of magnitude 2^63 and beyond (distinct values that a detour through 64-bit integers merges)
+    pub huge_reals: bool,
+    /// REAL cells are mostly neighbouring doubles (0.3 and the next ones): distinct values one rounding step apart
+    pub ulp_reals: bool,
 }
 
 impl DataCfg {
     pub fn random(rng: &mut Rng, ncols: usize, hostile: bool) -> DataCfg {
         let rates = [0u32, 0, 100, 300, 600, 900];
-        DataCfg { null_rate: (0..ncols).map(|_| *rng.pick(&rates)).collect(), hostile, keys: 1 + rng.below(5), exact: true, big_ints: false, zeros: false, mid_ints: false }
+        DataCfg { null_rate: (0..ncols).map(|_| *rng.pick(&rates)).collect(), hostile, keys: 1 + rng.below(5), exact: true, big_ints: false, zeros: false, mid_ints: false, huge_reals: false, ulp_reals: false }
     }
 }
 
@@ -125,6 +129,8 @@ pub fn std_cell(rng: &mut Rng, name: &str, ty: &Ty, cfg: &DataCfg, col_index: us
         }
         Ty::Real => {
             if cfg.hostile && rng.chance(1, 6) { Cell::Real(*rng.pick(&[1e308, -1e308, 0.0, 1e-300, 9007199254740993.0])) }
+            else if cfg.huge_reals && rng.chance(3, 4) { Cell::Real(*rng.pick(&[1e19, 2e19, 3e19, -1e19, -2e19, 9223372036854775808.0, 18446744073709551616.0, 1e300, 2e300, 9223372036854777856.0])) }
+            else if cfg.ulp_reals && rng.chance(3, 4) { Cell::Real(*rng.pick(&[0.3, 0.30000000000000004, 0.3000000000000001, 0.29999999999999993, 1.0, 1.0000000000000002, 0.9999999999999999, -0.3, -0.30000000000000004])) }
             else if cfg.zeros && rng.chance(3, 4) { Cell::Real(if rng.chance(1, 2) { 0.0 } else { -0.0 }) }
             else if rng.chance(1, 16) { Cell::Real(-0.0) } // equal to 0.0 as a key, a group member and a join partner
             else { Cell::Real(rng.range(-24, 40) as f64 / 8.0) }
@@ -429,7 +435,6 @@ fn agg_arg(rng: &mut Rng, s: &Schema, ty: &Ty, cfg: &ExprCfg) -> E {
 pub const PERCENTILES: &[f64] = &[0.0, 0.25, 0.5, 0.9, 1.0];
 
 pub fn gen_agg_call(rng: &mut Rng, s: &Schema, cfg: &ExprCfg, order_insensitive_only: bool) -> E {
-    let num = |rng: &mut Rng| if rng.chance(2, 3) { Ty::Int } else { Ty::Real };
     // SUM / AVG also exist for INTERVAL (running sums of another variant)
     let summable = |rng: &mut Rng| match rng.below(7) { 0 => Ty::Iv, 1 | 2 => Ty::Real, _ => Ty::Int };
     let pick = rng.below(if order_insensitive_only { 13 } else { 16 });
@@ -529,6 +534,21 @@ pub fn gen_aggregate(rng: &mut Rng, s: &Schema, cfg: &AggCfg) -> Sel {
     if cfg.allow_distinct && rng.chance(1, 4) { sel.distinct = true; }
     if cfg.allow_limit && rng.chance(1, 3) { sel.limit = Some(rng.below(5) as u64); }
     sel
+}
+
+/// groups the statement by one given column instead of its generated keys (the key shown first; a HAVING that may name the old keys is dropped)
+pub fn rekey(sel: &mut Sel, key: &str) {
+    let old = sel.group_by.take().unwrap_or_default();
+    sel.projs.retain(|(e, _)| !old.contains(e));
+    sel.projs.insert(0, (col(key), None));
+    sel.group_by = Some(vec![col(key)]);
+    sel.having = None;
+}
+
+/// statements whose result over integers of 2^53..2^62 depends on rounding or overflows in some orders only
+pub fn big_int_risky(s: &Sel) -> bool {
+    let txt = s.text(Paren::Full);
+    txt.contains("stddev") || txt.contains("variance") || txt.contains("sum") || txt.contains("avg") || txt.contains(" * ") || txt.contains(" + ") || txt.contains(" - ") || txt.contains("pow")
 }
 
 // ---------------------------------------------------------------------------------------------
